@@ -4,6 +4,7 @@ import CmModel.Hsl
 import CmModel.Descent
 import CmModel.Color
 import CmModel.Cert
+import CmModel.CliRun
 import CmGen.NamedColors
 /-! Line-protocol driver: one operation per input line, one result line per operation. -/
 open Cm Cm.Proto
@@ -167,6 +168,98 @@ def handleVal (op : String) (args : List String) : Option String := do
     | _ => none
   | _, _ => none
 
+
+/-! ### CLI: stylesheet wire format -/
+open Cm.Cli
+partial def decodeItems (k : Nat) (ts : List String) (acc : List Item) : Option (List Item × List String) :=
+  match k with
+  | 0 => some (acc.reverse, ts)
+  | k + 1 =>
+    match ts with
+    | "D" :: n :: l :: v :: imp :: rest => do
+      let n ← hexStr n; let l ← hexStr l; let v ← hexStr v
+      decodeItems k rest (.decl { name := n, lowerName := l, value := v, important := imp == "1" } :: acc)
+    | "X" :: t :: ok :: rest => do
+      let t ← hexStr t
+      decodeItems k rest (.other t (ok == "1") :: acc)
+    | _ => none
+where hexStr (h : String) : Option Str := if h == "-" then some [] else (strOfHex h).map String.toList
+
+partial def decodeNodes (k : Nat) (ts : List String) (acc : List Node) : Option (List Node × List String) :=
+  match k with
+  | 0 => some (acc.reverse, ts)
+  | k + 1 =>
+    match ts with
+    | "R" :: sel :: n :: rest => do
+      let sel ← decodeItems.hexStr sel; let n ← n.toNat?
+      let (items, rest') ← decodeItems n rest []
+      decodeNodes k rest' (.rule sel items :: acc)
+    | "A" :: kw :: pre :: n :: rest => do
+      let kw ← decodeItems.hexStr kw; let pre ← decodeItems.hexStr pre; let n ← n.toNat?
+      let (body, rest') ← decodeNodes n rest []
+      decodeNodes k rest' (.at kw pre body :: acc)
+    | "O" :: t :: ok :: rest => do
+      let t ← decodeItems.hexStr t
+      decodeNodes k rest (.other t (ok == "1") :: acc)
+    | _ => none
+
+def hx (s : Str) : String := if s.isEmpty then "-" else hexOfStr (String.ofList s)
+
+def encodeItems (items : List Item) : String :=
+  " ".intercalate (items.map fun it => match it with
+    | .decl d => s!"D {hx d.name} {hx d.lowerName} {hx d.value} {if d.important then 1 else 0}"
+    | .other t ok => s!"X {hx t} {if ok then 1 else 0}")
+
+partial def encodeNodes (nodes : List Node) : String :=
+  " ".intercalate (nodes.map fun n => match n with
+    | .rule sel items => s!"R {hx sel} {items.length} {encodeItems items}"
+    | .at kw pre body => s!"A {hx kw} {hx pre} {body.length} {encodeNodes body}"
+    | .other t ok => s!"O {hx t} {if ok then 1 else 0}")
+
+/-- `cli <defaultBg> <mode> <premium> <k> <cls>*k <nfiles> (<nnodes> nodes…)*` : runs the files in order
+    with shared counters; prints per-file outcome and the final counters / detail lists -/
+def handleCli (args : List String) : Option String := do
+  match args with
+  | dbg :: mode :: premium :: k :: rest =>
+    let dbg ← decodeItems.hexStr dbg; let mode ← parseInt mode; let k ← k.toNat?
+    let clsToks := rest.take k
+    let cls ← decodeCls (clsToks.map fun t => (":".intercalate ((t.splitOn ":").take 4)))
+    -- fifth field: `\w`
+    let wordTbl : List (Nat × Bool) := clsToks.filterMap fun t =>
+      match t.splitOn ":" with
+      | [cp, _, _, _, w] => cp.toNat?.map fun c => (c, w == "1")
+      | _ => none
+    let env : CliEnv :=
+      { isWord := fun c => match wordTbl.find? (·.1 = c.toNat) with | some e => e.2 | none => asciiEnv.isWord c
+        isSpace := cls.isSpace }
+    let E : PEnv := { cls := cls, named := namedEnv }
+    let cfg : Cfg := { defaultBg := dbg, pairEval := pairEvalImpl E hexOfFloat floatOfHex mode (premium == "1") }
+    match rest.drop k with
+    | nf :: rest2 =>
+      let nf ← nf.toNat?
+      let mut ts := rest2
+      let mut st : St := {}
+      let mut outs : List String := []
+      for _ in [0:nf] do
+        match ts with
+        | "E" :: r => -- unreadable file (decode error, directory, dangling link): reported and skipped
+          outs := "error" :: outs; ts := r
+        | n :: r =>
+          let n ← n.toNat?
+          let (nodes, r') ← decodeNodes n r []
+          let (o, st') := processFile env cfg nodes st
+          st := { st' with vars := [], rootDecls := [] }
+          outs := (match o with | .written ns => s!"written {ns.length} {encodeNodes ns}" | .error => "error") :: outs
+          ts := r'
+        | [] => none
+      let failed := st.failedDetails.reverse.map fun f => s!"G {hx f.selector} {hx f.text} {hx f.bg} {if f.invalid then 1 else 0}"
+      let fixed := st.fixedDetails.reverse.map fun f =>
+        s!"F {hx f.selector} {hx f.bg} {hx f.originalText} {hx f.tunedText} {f.originalLevel.toString} {f.newLevel.toString}"
+      pure (s!"stats {st.accessible} {st.tuned} {st.failed} | " ++ " ".intercalate failed ++ " | " ++ " ".intercalate fixed
+            ++ " | " ++ " ;; ".intercalate outs.reverse)
+    | [] => none
+  | _ => none
+
 def handle (toks : List String) : Option String :=
   match toks with
   | ["lin", x] => do let x ← floatOfHex x; pure (hexOfFloat (srgbToLinear x))
@@ -238,6 +331,7 @@ def handle (toks : List String) : Option String :=
   | ["pmod", x, y] => do
       let x ← floatOfHex x; let y ← floatOfHex y; pure (hexOfFloat (Num.pmod x y))
   | ["round", x] => do let x ← floatOfHex x; pure (toString (Num.roundHE x))
+  | "cli" :: args => handleCli args
   | op :: args => handleVal op args
   | _ => none
 
